@@ -28,6 +28,7 @@ import (
 	"github.com/lindb/lindb/query/operator"
 	"github.com/lindb/lindb/query/tracker"
 	"github.com/lindb/lindb/rpc"
+	"github.com/lindb/lindb/series"
 	"github.com/lindb/lindb/series/field"
 	"github.com/lindb/lindb/series/metric"
 	"github.com/lindb/lindb/series/tag"
@@ -46,6 +47,10 @@ const (
 )
 
 var familyStart = baseTime - baseTime%3600000
+
+// MaxSlot is the last slot of the family a generated point may fall into (the queried range is a
+// prefix of it).
+const MaxSlot = 9
 
 // FieldDef is one field of the metric (cluster-wide identity: name + type).
 type FieldDef struct {
@@ -80,6 +85,8 @@ type QueryDef struct {
 	Limit     int
 	NumSlots  int
 	AllFields bool
+
+	ftypes map[string]field.Type // field name -> type (for the canonicalisation of order-by answers)
 }
 
 // OrderDef is one order-by item.
@@ -246,10 +253,20 @@ func newTracker() *tracker.StageTracker {
 // (one DataLoadContext per shard), LeafReduceContext.Reduce, LeafExecuteContext.SendResponse
 // (-> BuildResultSet, hash split over receivers, protobuf marshal). Returns one response per receiver.
 func RunLeaf(w *World, q *QueryDef, leaf *LeafDef, receivers []string) ([]*protoCommonV1.TaskResponse, error) {
+	rs, _, err := RunLeafRec(w, q, leaf, receivers)
+	return rs, err
+}
+
+// RunLeafRec is RunLeaf that also returns the grouped iterators the node's reduce saw, in reduce
+// order, as protocol tokens (tags already translated from node-local tag value ids). The iterators
+// are produced twice from the same points (reading one consumes it): once for the record, once
+// for the real LeafReduceContext.
+func RunLeafRec(w *World, q *QueryDef, leaf *LeafDef, receivers []string) ([]*protoCommonV1.TaskResponse, []string, error) {
 	st, err := wireCopy(q.statement(w))
 	if err != nil {
-		return nil, err
+		return nil, nil, err
 	}
+	var recorded []string
 	var schema *metric.Schema
 	if !leaf.NoMetric {
 		schema = &metric.Schema{}
@@ -279,7 +296,7 @@ func RunLeaf(w *World, q *QueryDef, leaf *LeafDef, receivers []string) ([]*proto
 
 	if err := operator.NewMetadataLookup(lctx.StorageExecuteCtx, db).Execute(); err != nil {
 		lctx.SendResponse(err)
-		return collect(), nil
+		return collect(), nil, nil
 	}
 	sctx := lctx.StorageExecuteCtx
 	// node-local tag value ids: dictionary per group-by key, ids assigned in first-seen order
@@ -296,72 +313,91 @@ func RunLeaf(w *World, q *QueryDef, leaf *LeafDef, receivers []string) ([]*proto
 		fieldIdx[string(fm.Name)] = i
 	}
 	grouped := false
-	for _, shard := range leaf.Shards {
-		shardCtx := flow.NewShardExecuteContext(sctx)
-		dl := &flow.DataLoadContext{ShardExecuteCtx: shardCtx, IsMultiField: len(sctx.Fields) > 1, IsGrouping: st.HasGroupBy()}
-		if !dl.IsGrouping {
-			dl.PrepareAggregatorWithoutGrouping()
-		} else {
-			dl.GroupingSeriesAggRefs = make([]uint16, len(shard))
-			keyIdx := map[string]uint16{}
-			for li, si := range shard {
-				key := make([]byte, 4*len(q.GroupBy))
-				for gi, g := range q.GroupBy {
-					v := w.Series[si].Tags[g]
-					id, ok := dicts[gi][v]
-					if !ok {
-						id = base + uint32(len(dicts[gi]))
-						dicts[gi][v] = id
-						rev[gi][id] = v
+	// what storage hands to the down-sampling of one series: field index -> slot -> value. A series
+	// takes part in the query on this node iff it has a point of a selected field in the family
+	// (possibly outside the queried slot range: then its aggregator exists but stays empty).
+	seriesData := func(si int) map[int]sliceGetter {
+		perField := map[int]sliceGetter{}
+		for _, p := range w.Points {
+			if p.Series != si {
+				continue
+			}
+			fi, ok := fieldIdx[w.Fields[p.Field].Name]
+			if !ok {
+				continue // field not selected
+			}
+			if perField[fi] == nil {
+				perField[fi] = sliceGetter{}
+			}
+			// same-slot points of one series were already combined by storage (C11's domain)
+			if old, ok := perField[fi][uint16(p.Slot)]; ok {
+				perField[fi][uint16(p.Slot)] = w.Fields[p.Field].Type.AggType().Aggregate(old, float64(p.Val))
+			} else {
+				perField[fi][uint16(p.Slot)] = float64(p.Val)
+			}
+		}
+		return perField
+	}
+	for pass := 0; pass < 2; pass++ {
+		for _, shardAll := range leaf.Shards {
+			var shard []int
+			for _, si := range shardAll {
+				if len(seriesData(si)) > 0 {
+					shard = append(shard, si)
+				}
+			}
+			if len(shard) == 0 {
+				continue // storage finds no series of the metric in this shard
+			}
+			shardCtx := flow.NewShardExecuteContext(sctx)
+			dl := &flow.DataLoadContext{ShardExecuteCtx: shardCtx, IsMultiField: len(sctx.Fields) > 1, IsGrouping: st.HasGroupBy()}
+			if !dl.IsGrouping {
+				dl.PrepareAggregatorWithoutGrouping()
+			} else {
+				dl.GroupingSeriesAggRefs = make([]uint16, len(shard))
+				keyIdx := map[string]uint16{}
+				for li, si := range shard {
+					key := make([]byte, 4*len(q.GroupBy))
+					for gi, g := range q.GroupBy {
+						v := w.Series[si].Tags[g]
+						id, ok := dicts[gi][v]
+						if !ok {
+							id = base + uint32(len(dicts[gi]))
+							dicts[gi][v] = id
+							rev[gi][id] = v
+						}
+						binary.LittleEndian.PutUint32(key[4*gi:], id)
 					}
-					binary.LittleEndian.PutUint32(key[4*gi:], id)
-				}
-				idx, ok := keyIdx[string(key)]
-				if !ok {
-					idx = dl.NewSeriesAggregator(string(key))
-					keyIdx[string(key)] = idx
-					grouped = true
-				}
-				dl.GroupingSeriesAggRefs[li] = idx
-			}
-		}
-		any := false
-		for li, si := range shard {
-			// per series, per field: one GetAggregator(familyTime) + DownSampling, as dataLoad.Execute does
-			perField := map[int]sliceGetter{}
-			for _, p := range w.Points {
-				if p.Series != si || p.Slot >= q.NumSlots {
-					continue
-				}
-				fi, ok := fieldIdx[w.Fields[p.Field].Name]
-				if !ok {
-					continue // field not selected (or unknown here)
-				}
-				if perField[fi] == nil {
-					perField[fi] = sliceGetter{}
-				}
-				// same-slot points of one series were already combined by storage (C11's domain)
-				if old, ok := perField[fi][uint16(p.Slot)]; ok {
-					perField[fi][uint16(p.Slot)] = w.Fields[p.Field].Type.AggType().Aggregate(old, float64(p.Val))
-				} else {
-					perField[fi][uint16(p.Slot)] = float64(p.Val)
+					idx, ok := keyIdx[string(key)]
+					if !ok {
+						idx = dl.NewSeriesAggregator(string(key))
+						keyIdx[string(key)] = idx
+						grouped = true
+					}
+					dl.GroupingSeriesAggRefs[li] = idx
 				}
 			}
-			var fis []int
-			for fi := range perField {
-				fis = append(fis, fi)
+			for li, si := range shard {
+				// per series, per field: one GetAggregator(familyTime) + DownSampling, as dataLoad.Execute does
+				perField := seriesData(si)
+				var fis []int
+				for fi := range perField {
+					fis = append(fis, fi)
+				}
+				sort.Ints(fis)
+				for _, fi := range fis {
+					sa := dl.GetSeriesAggregator(uint16(li), fi)
+					agg := sa.GetAggregator(familyStart)
+					src := timeutil.SlotRange{Start: 0, End: uint16(MaxSlot)}
+					tgt := timeutil.SlotRange{Start: 0, End: uint16(q.NumSlots - 1)}
+					aggregation.DownSampling(src, tgt, 1, 0, perField[fi], agg.AggregateBySlot)
+				}
 			}
-			sort.Ints(fis)
-			for _, fi := range fis {
-				sa := dl.GetSeriesAggregator(uint16(li), fi)
-				agg := sa.GetAggregator(familyStart)
-				rng := timeutil.SlotRange{Start: 0, End: uint16(q.NumSlots - 1)}
-				aggregation.DownSampling(rng, rng, 1, 0, perField[fi], agg.AggregateBySlot)
-				any = true
-			}
-		}
-		if any || !dl.IsGrouping {
-			if any {
+			if pass == 0 {
+				dl.Reduce(func(it series.GroupedIterator) {
+					recorded = append(recorded, recordIterator(it, rev)...)
+				})
+			} else {
 				dl.Reduce(lctx.ReduceCtx.Reduce)
 			}
 		}
@@ -370,7 +406,51 @@ func RunLeaf(w *World, q *QueryDef, leaf *LeafDef, receivers []string) ([]*proto
 		lctx.GroupingCtx.VerifSetGroupingTagValues(rev)
 	}
 	lctx.SendResponse(nil)
-	return collect(), nil
+	return collect(), recorded, nil
+}
+
+// recordIterator renders one grouped iterator as `t:` / `f:` / `p:` tokens.
+func recordIterator(it series.GroupedIterator, rev []map[uint32]string) []string {
+	key := []byte(it.Tags())
+	vals := make([]string, len(rev))
+	for i := range rev {
+		vals[i] = rev[i][binary.LittleEndian.Uint32(key[4*i:])]
+	}
+	out := []string{"t:" + tagTok(tag.ConcatTagValues(vals))}
+	for it.HasNext() {
+		sit := it.Next()
+		out = append(out, fmt.Sprintf("f:%s:%d", sit.FieldName(), sit.FieldType()))
+		for sit.HasNext() {
+			_, fit := sit.Next()
+			if fit == nil {
+				continue
+			}
+			for fit.HasNext() {
+				p := fit.Next()
+				var pts []string
+				for p.HasNext() {
+					s, v := p.Next()
+					pts = append(pts, fmt.Sprintf("%d=%s", s, fmtVal(v)))
+				}
+				out = append(out, fmt.Sprintf("p:%d:%s", p.AggType(), joinOrDash(pts)))
+			}
+		}
+	}
+	return out
+}
+
+func tagTok(t string) string {
+	if t == "" {
+		return "-"
+	}
+	return t
+}
+
+func joinOrDash(l []string) string {
+	if len(l) == 0 {
+		return "-"
+	}
+	return strings.Join(l, ",")
 }
 
 // ---------------------------------------------------------------- root / intermediate
@@ -420,21 +500,11 @@ func errKind(msg string) string {
 // Finish reads the outcome (WaitResponse of the real root; never blocks: if the context has not
 // completed it reports "pending").
 func (r *Root) Finish() *Result {
-	exp, _, _, _ := r.Ctx.VerifState()
-	_ = exp
-	done := make(chan struct{})
-	var rs any
-	var err error
-	go func() {
-		rs, err = r.Ctx.WaitResponse()
-		close(done)
-	}()
-	select {
-	case <-done:
-	case <-time.After(50 * time.Millisecond):
-		// not completed: WaitResponse is still parked on doneCh
+	if _, _, _, _, done := r.Ctx.VerifState(); !done {
+		// not completed: WaitResponse would park on doneCh until the context's deadline
 		return &Result{Err: "pending"}
 	}
+	rs, err := r.Ctx.WaitResponse()
 	if err != nil {
 		return &Result{Err: errKind(err.Error())}
 	}
@@ -492,18 +562,10 @@ func NewIntermediate(w *World, q *QueryDef, self string, leaves, receivers []str
 // Finish returns the intermediate's response to the root (or an error response, as
 // TaskHandler.process sends when the processor fails).
 func (i *Intermediate) Finish() *protoCommonV1.TaskResponse {
-	done := make(chan struct{})
-	var rs any
-	var err error
-	go func() {
-		rs, err = i.Ctx.WaitResponse()
-		close(done)
-	}()
-	select {
-	case <-done:
-	case <-time.After(50 * time.Millisecond):
+	if _, _, _, _, done := i.Ctx.VerifState(); !done {
 		return nil
 	}
+	rs, err := i.Ctx.WaitResponse()
 	if err != nil {
 		return &protoCommonV1.TaskResponse{RequestID: "r1", Completed: true, ErrMsg: err.Error()}
 	}
